@@ -33,7 +33,11 @@ def cases(draw, tier="quick"):
         # repeated field names
         f = spec["fields"]
         for _ in range(draw(st.integers(1, 3))):
-            f.insert(draw(st.integers(0, len(f))), f[draw(st.integers(0, len(f) - 1))])
+            name = f[draw(st.integers(0, len(f) - 1))]
+            base = name.rsplit("_", 1)[0] if name.rsplit("_", 1)[-1].isdigit() else name
+            # a plain repeat, or the literal numbered form the reader itself would invent for a repeat
+            new = draw(st.sampled_from([base, base, f"{base}_2", f"{base}_3"]))
+            f.insert(draw(st.integers(0, len(f))), new)
     nlev = spec["mesh"]["nlev"]
     limits = draw(st.lists(st.sampled_from([None] + list(range(nlev)) + [nlev, nlev + 2]), min_size=1, max_size=3, unique=True))
     return dict(spec=spec, limits=limits, maxmins=draw(st.booleans()))
@@ -166,8 +170,12 @@ def check_case(case, ctx):
         except Exception as e:
             v.append(f"{tag}: opening raised {type(e).__name__}: {e}")
             continue
-        _check_global(pck, plot, L, v, tag)
-        _check_levels(pck, plot, offsets, L, case["maxmins"], v, tag)
+        for fn, args in ((_check_global, (pck, plot, L, v, tag)),
+                         (_check_levels, (pck, plot, offsets, L, case["maxmins"], v, tag))):
+            try:
+                fn(*args)
+            except Exception as e:      # the exposed structure cannot even be indexed the way the headers are laid out
+                v.append(f"{tag}: exposed metadata has an unexpected structure: {type(e).__name__}: {e}")
     # header-only opening on a copy without level directories / binaries
     os.makedirs("hdr")
     shutil.copy("src/Header", "hdr/Header")
@@ -176,7 +184,10 @@ def check_case(case, ctx):
         L = finest if limit is None else limit
         try:
             pck = qcall(PlotfileCooker, "hdr", limit_level=limit, header_only=True)
-            _check_global(pck, plot, L, v, f"header_only limit_level={limit}")
+            try:
+                _check_global(pck, plot, L, v, f"header_only limit_level={limit}")
+            except Exception as e:
+                v.append(f"header_only: exposed metadata has an unexpected structure: {type(e).__name__}: {e}")
             if len(pck.boxes) != L + 1:
                 v.append(f"header_only: {len(pck.boxes)} box levels, expected {L + 1}")
             else:
